@@ -1606,6 +1606,7 @@ func (c *connection) handleRecvQueue(q lib.QueueMPSC) {
 			priority := gen.MessagePriority(buf.B[16] & 3)
 			important := (buf.B[16] & 128) > 0
 			idTO := binary.BigEndian.Uint64(buf.B[25:33])
+			idRef := binary.BigEndian.Uint64(buf.B[17:25])
 
 			msg, tail, err := edf.Decode(buf.B[33:], c.decodeOptions)
 			if releaseBuffer {
@@ -1644,7 +1645,7 @@ func (c *connection) handleRecvQueue(q lib.QueueMPSC) {
 				continue
 			}
 
-			opts.Ref.ID[0] = binary.BigEndian.Uint64(buf.B[17:25])
+			opts.Ref.ID[0] = idRef
 			c.SendResponseError(to, from, opts, err)
 
 		case protoMessageName, protoMessageNameCache: // name, chached name
@@ -1692,6 +1693,7 @@ func (c *connection) handleRecvQueue(q lib.QueueMPSC) {
 			idFrom := binary.BigEndian.Uint64(buf.B[8:16])
 			priority := gen.MessagePriority(buf.B[16] & 3)
 			important := (buf.B[16] & 128) > 0
+			idRef := binary.BigEndian.Uint64(buf.B[17:25])
 
 			msg, tail, err := edf.Decode(data, c.decodeOptions)
 			if releaseBuffer {
@@ -1735,7 +1737,7 @@ func (c *connection) handleRecvQueue(q lib.QueueMPSC) {
 				continue
 			}
 
-			opts.Ref.ID[0] = binary.BigEndian.Uint64(buf.B[17:25])
+			opts.Ref.ID[0] = idRef
 			c.SendResponseError(gen.PID{}, from, opts, err)
 
 		case protoMessageAlias:
@@ -1752,6 +1754,7 @@ func (c *connection) handleRecvQueue(q lib.QueueMPSC) {
 				binary.BigEndian.Uint64(buf.B[33:41]),
 				binary.BigEndian.Uint64(buf.B[41:49]),
 			}
+			idRef := binary.BigEndian.Uint64(buf.B[17:25])
 
 			msg, tail, err := edf.Decode(buf.B[49:], c.decodeOptions)
 			if releaseBuffer {
@@ -1790,7 +1793,7 @@ func (c *connection) handleRecvQueue(q lib.QueueMPSC) {
 				continue
 			}
 
-			opts.Ref.ID[0] = binary.BigEndian.Uint64(buf.B[17:25])
+			opts.Ref.ID[0] = idRef
 			c.SendResponseError(gen.PID{}, from, opts, err)
 
 		case protoRequestPID:
